@@ -350,6 +350,9 @@ def run(P, R, tier):
     c07.slot_stability(P, Remap(R, {'C07.WMC.3': 'C04.WMC.3'}))
     # ... and a slot still referenced by a pending client is not handed to another service
     c07.storage_audit(P, Remap(R, {'C07.WMC.1': 'C04.WMC.3'}, keys=('slot-release',)))
+    # a slot is kept for as long as a client awaits it: every awaited mark takes a reference, every clear gives one back
+    from .. import holds as _holds
+    _holds.refs_discipline(P, R, 'C04.WMC.4')
     # a reply is honoured from an awaited service: a service is awaited only if it was actually asked
     from . import c06
     xq, b = c06.builder(P)
